@@ -222,6 +222,7 @@ SPECIAL_TEXTS = [
     'POINT(1 2', 'POINT 1 2)', 'POINT((1 2))', 'POINT(a b)', 'POINT(1 2)x', 'xPOINT(1 2)', '', '(1 2)', '12', 'POINT(-0 -0.0)',
     'POINT(179.75 89.5)', 'POINT(0.0001 1e-7)', 'POINT(1-2 3)', 'POINT(1 -2-3)', 'POINT(1e 2)', 'POINT(1e+ 2)', 'POINT(1.e1 2)',
     'POINT(1..2 3)', 'POINT(- 1 2)', 'POINT(1 2 3 4)', 'POINT(12345 6)', 'POINT(1234567 8)',
+    'POINT(1.0 2.0 1500.5)', 'POINT(1.0 2.0 1500.0)', 'MULTIPOINT(6.5 0.1 12345.678, 1.0 0.5)', 'LINESTRING(1 2 1500.5,3 4 1600.25)',
     'LINESTRING(1 2)', 'LINESTRING(1 2,3 4,)', 'LINESTRING()', 'LINESTRING(1 2 3 4 5 6)', 'LINESTRING(1 2,,3 4)',
     'LINESTRING(1 2, 3 4)', 'LINESTRING(1 2 ,3 4)', 'LINESTRING(1 2 , 3 4)', 'LINESTRING(1 2  ,3 4)', 'LINESTRING (1 2,3 4)',
     'LINESTRING((1 2,3 4))', 'LINESTRING(1 2,3 4)(5 6,7 8)', 'LINESTRING Z(1 2 3,4 5 6)', 'LINESTRING(1 2 3,4 5)', 'linestring(0 0,1 1)',
@@ -365,7 +366,7 @@ def main():
         L = G.Enc(labels=True)
         vs = [(rng.choice(mags) if rng.random() < 0.7 else rng.uniform(-179, 179) * 10 ** -rng.randint(0, 9),
                max(-90.0, min(90.0, rng.choice(mags) if rng.random() < 0.7 else rng.uniform(-89, 89) * 10 ** -rng.randint(0, 9))),
-               rng.choice([None, None, 7.25, 1e-06, 12345.678])) for _ in range(rng.randint(1, 4))]
+               rng.choice([None, None, 7.25, 1e-06, 999.75, -123.456])) for _ in range(rng.randint(1, 4))]
         kind = 'point' if len(vs) == 1 else rng.choice(['line', 'mpoint'])
         spec = {'kind': kind, 'dt': None, 'props': None}
         spec.update({'c': vs[0]} if kind == 'point' else {'vs' if kind == 'line' else 'cs': vs})
@@ -424,7 +425,7 @@ def main():
         m = {'op': 'shapely', 'kind': spec['kind'], 'spec': spec, 'text': text[:300]}
         try:
             a, b = shapely.from_wkt(text), obj.to_shapely()
-            ok = a.equals_exact(b, 0.0) or (spec['kind'] == 'ring' and a.normalize().equals_exact(b.normalize(), 1e-9))
+            ok = a.equals_exact(b, 0.0) or (spec['kind'] == 'ring' and a.equals(b))
         except Exception as ex:   # noqa
             ok = False
             m['error'] = repr(ex)
@@ -451,11 +452,12 @@ def main():
     # match (nested quantifiers over digit runs that split in several ways; 1 s for a 4-vertex ring written with
     # decimals), so those bases use integer-form numbers; decimal-form ones only in the thorough tier.
     bases = [('TPoint', 'POINT(12.5 -3.25)'), ('TPoint', 'POINT(1.0 2.0 3.5)'), ('TLine', 'LINESTRING(0.0 0.0,1.5 1.0)'),
-             ('TMPoint', 'MULTIPOINT(0.0 0.0, 1.0 1.5)'), ('TPoly', 'POLYGON((0 0,4 0,0 4,0 0), (1 1,1 2,2 1,1 1))'),
+             ('TMPoint', 'MULTIPOINT(0.0 0.0, 1.0 1.5)'), ('TPoly', 'POLYGON((0 0,4 0,0 4), (1 1,1 2,2 1))'),
              ('TMLine', 'MULTILINESTRING((0 0,1 1), (2 2,3 3))'),
-             ('TMPoly', 'MULTIPOLYGON(((0 0,4 0,0 4,0 0), (1 1,1 2,2 1,1 1)), ((9 9,8 9,9 8,9 9)))')]
+             ('TMPoly', 'MULTIPOLYGON(((0 0,4 0,0 4)), ((9 9,8 9,9 8)))')]
     if not quick:
-        bases += [('TLine', 'LINESTRING(0.0 0.0,1.5 1.0,2.0 -0.5)'), ('TPoly', 'POLYGON((0.0 0.0,4.0 0.0,0.0 4.0))')]
+        bases += [('TLine', 'LINESTRING(0.0 0.0,1.5 1.0,2.0 -0.5)'), ('TPoly', 'POLYGON((0.0 0.0,4.0 0.0,0.0 4.0))'),
+                  ('TMPoly', 'MULTIPOLYGON(((0 0,4 0,0 4), (1 1,1 2,2 1)))')]
     for tag, base in bases:
         assert run_impl(lambda: SIMPLE[KIND_OF_TAG[tag]].from_wkt(base))[0] == 'Ok', base
     alphabet = ALPHABET if not quick else ['7', '.', '-', ' ', ',', '(', ')', 'Z']
@@ -473,7 +475,7 @@ def main():
 
     # ---- 6. float(): the lexical grammar of the numbers, on a fixed list
     for t in ['1', '-1', '+1', '1.', '.5', '1.5', '1e5', '1E5', '1e-5', '1e+5', '1.e1', '.e1', 'e1', '1e', '1e+', '', ' ', ' 1', '1 ', '\t1\n', '-', '+',
-              '.', '1.2.3', '1-2', '--1', '1e1.5', '0007', '-0', '-0.0', '12.50', '1_0', '1,0', 'x', '1x', '00.10e02', '5e-324', '123456789.123456789']:
+              '.', '1.2.3', '1-2', '--1', '1e1.5', '0007', '-0', '-0.0', '12.50', '1,0', 'x', '1x', '00.10e02', '5e-324', '123456789.123456789']:
         r = guarded(lambda: float(t))
         ok = r[0] == 'Ok' and r[1] == r[1] and abs(r[1]) != float('inf')
         out = f'(Some ({zlit(dec_of(r[1])[0])}, {zlit(dec_of(r[1])[1])}))' if ok else 'None'
@@ -524,6 +526,10 @@ def main():
             c = f['replay']['c']
             p = GeoPoint(G.Cd(tuple(c)))
             if GeoPoint.from_wkt(p.to_wkt()) != p:
+                ck.known(f)
+        if f.get('signature') == 'z_four_digits':
+            p = GeoPoint.from_wkt(f['replay']['text'])
+            if p.coordinate.z != f['replay']['z']:
                 ck.known(f)
         if f.get('signature') == 'digit_run_split':
             r = guarded(lambda: GeoPoint.from_wkt(f['replay']['text']))
